@@ -880,13 +880,31 @@ func (s *Server) command(cs *ConnState, argv [][]byte) []byte {
 		return s.cmdStream(db, name, argv)
 	case "script":
 		if len(a) >= 2 && lower(a[0]) == "load" {
-			sha := fmt.Sprintf("%040x", len(s.scripts)+1)
+			sha := scriptSHA(a[1])
 			s.scripts[sha] = string(a[1])
 			return rBulkS(sha)
 		}
+		if len(a) >= 1 && lower(a[0]) == "flush" {
+			s.scripts = map[string]string{}
+		}
 		return rOK()
 	case "eval":
+		// a server keeps every script it has run in its script cache (EVALSHA finds it afterwards)
+		if len(a) >= 1 {
+			s.scripts[scriptSHA(a[0])] = string(a[0])
+		}
 		return s.cmdEval(cs, argv)
+	case "evalsha":
+		// runs a cached script; an unknown digest executes nothing: NOSCRIPT
+		if len(a) < 2 {
+			return argErr("evalsha")
+		}
+		body, ok := s.scripts[lower(a[0])]
+		if !ok {
+			return rErr("NOSCRIPT No matching script. Please use EVAL.")
+		}
+		av := append([][]byte{[]byte("eval"), []byte(body)}, a[1:]...)
+		return s.cmdEval(cs, av)
 	case "function":
 		s.prop(db, argv)
 		return rOK()
